@@ -298,6 +298,20 @@ func (d *driver) stageOfflineKeys() {
 		if !r.Res.OK || r.Res.Digest != ref.Res.Digest {
 			d.violation("digest-differs-with-cache", map[string]any{"exp": "offline-keys", "what": "online build with two URL keys", "err": r.Res.Err, "digest": r.Res.Digest, "want": ref.Res.Digest})
 		}
+		// the two downloads run concurrently inside one build: fix which entry is the newer one (round 0: the
+		// repository's key, round 1: the other one) so that both outcomes are seen on every run
+		newer := d.w.key.Pub
+		if round == 1 {
+			newer = d.w.extraKey.Pub
+		}
+		kdir := offlineDir(cache, ks[0])
+		if des, err := os.ReadDir(kdir); err == nil {
+			for _, de := range des {
+				if b, err := os.ReadFile(filepath.Join(kdir, de.Name())); err == nil && bytes.Equal(b, newer) {
+					lutimes(filepath.Join(kdir, de.Name()), time.Now().Unix()+5)
+				}
+			}
+		}
 		// (no listing case: the origin table of the validator knows packages and indexes, not key files)
 		for _, k := range ks {
 			d.emitOffline(cache, k, filepath.Base(k), "offline-keys/offline-pick",
@@ -322,7 +336,24 @@ func (d *driver) stageOfflineKeys() {
 			desc["what"] = "offline build with a keyring of two URLs in one directory: fetchOffline answers each request with the newest entry of the shared cache directory"
 			d.violation("offline-entry-of-another-file", desc)
 		}
-		d.count("offline_two_url_keys", out+" "+o.Res.Err)
+		why := ""
+		if strings.Contains(o.Res.Err, "signature verification failed") {
+			why = " (index signature verification fails: the repository's key file holds the other key)"
+		}
+		d.count("offline_two_url_keys", out+why)
+		// two builds in ONE process sharing one apk.Cache (the HEAD responses of both key files are in its etag
+		// cache during the second build): each must equal the build without cache
+		c2 := d.newCache()
+		r2 := d.w.run(runSpec{Cache: c2, Pkgs: pk, Keys: ks, N: 2})
+		for i, br := range r2.All {
+			if !br.OK || br.Digest != ref.Res.Digest {
+				d.violation("digest-differs-with-cache", map[string]any{"exp": "offline-keys", "what": "build with a keyring of two URLs in one directory, builds of one process sharing one apk.Cache",
+					"build_in_process": i + 1, "err": br.Err, "digest": br.Digest, "want": ref.Res.Digest, "round": round})
+			}
+		}
+		if len(r2.All) != 2 {
+			d.violation("multi-build-process-died", map[string]any{"exp": "offline-keys", "builds_reported": len(r2.All)})
+		}
 	}
 }
 
